@@ -376,5 +376,83 @@ theorem sparse_eq {M : Type} [AddCommMonoid M] (dims : List ℕ) (keep : List Bo
     rw [← ih (fun e' h' => hes e' (List.mem_cons_of_mem _ h'))]
     rw [sparse_single dims keep hlen e.1 e.2.1 e.2.2 he.1 he.2 a b ha hb]
 
+
+/-! ### operators embedded on the kept axes; regrouping of axes -/
+
+/-- **expectation of an embedded operator = expectation in the reduced state**:
+`Σ_{x,y} conj(ψ_x)·(G ⊗ 1)_{xy}·ψ_y = Σ_{u,v} G_{uv}·(Tr_T |ψ⟩⟨ψ|)_{vu}` -/
+theorem embedKeep_expectation {M : Type} [CommRing M] [StarRing M] (dims : List ℕ) (keep : List Bool)
+    (hlen : dims.length = keep.length) (G : ℕ → ℕ → M) (ψ : ℕ → M) :
+    ∑ x ∈ range (prodDims dims), ∑ y ∈ range (prodDims dims), star (ψ x) * embedKeep dims keep G x y * ψ y
+      = ∑ u ∈ range (prodSel true dims keep), ∑ v ∈ range (prodSel true dims keep),
+          G u v * partialTrace dims keep (fun y x => ψ y * star (ψ x)) v u := by
+  have hA : ∑ x ∈ range (prodDims dims), ∑ y ∈ range (prodDims dims), star (ψ x) * embedKeep dims keep G x y * ψ y
+      = ∑ u ∈ range (prodSel true dims keep), ∑ t ∈ range (prodSel false dims keep),
+        ∑ v ∈ range (prodSel true dims keep), ∑ t' ∈ range (prodSel false dims keep),
+          star (ψ (ptIndex dims keep u t)) * embedKeep dims keep G (ptIndex dims keep u t) (ptIndex dims keep v t')
+            * ψ (ptIndex dims keep v t') := by
+    rw [← sum_ptIndex dims keep hlen (fun x => ∑ y ∈ range (prodDims dims), star (ψ x) * embedKeep dims keep G x y * ψ y)]
+    refine sum_congr rfl fun u _ => sum_congr rfl fun t _ => ?_
+    rw [← sum_ptIndex dims keep hlen
+      (fun y => star (ψ (ptIndex dims keep u t)) * embedKeep dims keep G (ptIndex dims keep u t) y * ψ y)]
+  rw [hA]
+  simp only [partialTrace, sumRange_eq_sum, mul_sum]
+  refine sum_congr rfl fun u hu => ?_
+  rw [sum_comm]
+  refine sum_congr rfl fun v hv => sum_congr rfl fun t ht => ?_
+  have h1 := part_ptIndex dims keep hlen u t (mem_range.1 hu) (mem_range.1 ht)
+  rw [sum_eq_single t]
+  · have h2 := part_ptIndex dims keep hlen v t (mem_range.1 hv) (mem_range.1 ht)
+    simp only [embedKeep, h1.1, h1.2, h2.1, h2.2, if_true]; ring
+  · intro t' ht' hne
+    have h2 := part_ptIndex dims keep hlen v t' (mem_range.1 hv) (mem_range.1 ht')
+    simp only [embedKeep, h1.2, h2.2, if_neg (Ne.symm hne), mul_zero, zero_mul]
+  · intro h; exact absurd ht h
+
+theorem split_arith (t d2 P D : ℕ) : t / (d2 * P) * (d2 * D) + t % (d2 * P) / P * D = t / P * D := by
+  rw [Nat.mod_mul_left_div_self, Nat.mul_comm d2 P, ← Nat.div_div_eq_div_mul]
+  have := Nat.div_add_mod (t / P) d2
+  calc t / P / d2 * (d2 * D) + t / P % d2 * D = (d2 * (t / P / d2) + t / P % d2) * D := by ring
+    _ = t / P * D := by rw [this]
+
+/-- splitting one axis `d1·d2` into two axes `d1, d2` with the same mask bit does not change the index function -/
+theorem ptIndex_split (d1 d2 : ℕ) (ds : List ℕ) (k : Bool) (ks : List Bool) (a t : ℕ) :
+    ptIndex (d1 :: d2 :: ds) (k :: k :: ks) a t = ptIndex (d1 * d2 :: ds) (k :: ks) a t := by
+  cases k
+  · simp only [ptIndex, prodSel, prodDims, Bool.false_eq_true, if_false, if_true, one_mul]
+    rw [Nat.mod_mul_left_mod, ← Nat.add_assoc, split_arith]
+  · simp only [ptIndex, prodSel, prodDims, if_true]
+    rw [Nat.mod_mul_left_mod, ← Nat.add_assoc, split_arith]
+
+theorem prodSel_split (b : Bool) (d1 d2 : ℕ) (ds : List ℕ) (k : Bool) (ks : List Bool) :
+    prodSel b (d1 :: d2 :: ds) (k :: k :: ks) = prodSel b (d1 * d2 :: ds) (k :: ks) := by
+  by_cases h : k = b <;> simp [prodSel, h, Nat.mul_assoc]
+
+theorem partialTrace_split {M : Type} [AddCommMonoid M] (d1 d2 : ℕ) (ds : List ℕ) (k : Bool) (ks : List Bool)
+    (ρ : ℕ → ℕ → M) (a b : ℕ) :
+    partialTrace (d1 :: d2 :: ds) (k :: k :: ks) ρ a b = partialTrace (d1 * d2 :: ds) (k :: ks) ρ a b := by
+  simp only [partialTrace, prodSel_split, ptIndex_split]
+
+/-- **the two `cvxpy.partial_trace` calls of `sdp_2local_rdm_solve` compute the reduced state of the middle block** of the
+register `[L, 4, R]` (qubits `ind0, ind0+1` of the chain) -/
+theorem rdmTwoStep_eq {M : Type} [AddCommMonoid M] (L R : ℕ) (hL : L ≠ 1) (hR : R ≠ 1) (X : ℕ → ℕ → M) (a b : ℕ) :
+    rdmTwoStep L R X a b = partialTrace [L, 4, R] [false, true, false] X a b := by
+  simp only [rdmTwoStep, hL, hR, if_false, partialTrace, sumRange_eq_sum, ptIndex, prodSel, prodDims,
+    Bool.false_eq_true, Bool.true_eq_false, if_true, one_mul, mul_one, Nat.div_one, Nat.mod_one, Nat.zero_mul,
+    Nat.add_zero, Nat.mul_one]
+  rw [sum_range_mul, sum_comm]
+  refine sum_congr rfl fun q _ => sum_congr rfl fun r hr => ?_
+  have hr' := mem_range.1 hr
+  simp only [div_of_lt hr', mod_of_lt hr']
+
+/-- the boundary cases: no left block (`ind0 = 0`) / no right block (`ind0 = n-2`) -/
+theorem rdmTwoStep_left {M : Type} [AddCommMonoid M] (R : ℕ) (hR : R ≠ 1) (X : ℕ → ℕ → M) (a b : ℕ) :
+    rdmTwoStep 1 R X a b = partialTrace [4, R] [true, false] X a b := by
+  simp [rdmTwoStep, hR]
+
+theorem rdmTwoStep_right {M : Type} [AddCommMonoid M] (L : ℕ) (hL : L ≠ 1) (X : ℕ → ℕ → M) (a b : ℕ) :
+    rdmTwoStep L 1 X a b = partialTrace [L, 4] [false, true] X a b := by
+  simp [rdmTwoStep, hL]
+
 end PT
 end Numqi
